@@ -8,12 +8,16 @@ Cases (all carry 'script'):
                verbatim fragments) with a random layout ('stmts')
   kind 'raw'   fixed corpus (hand-written expectation in 'expect') and a malformed stream (no expectation: only K speaks)
 
-Five ties between the Coq model and the code (correspond), a case is bad when any of them disagrees:
+Six ties between the Coq model and the code (correspond), a case is bad when any of them disagrees:
   K_parse  extracted Gallina parse_model_nocheck (shared parser driver)  vs  fsic.parse_model: every Symbol field
   K_text   extracted CodeGen.code_text / equation_text (the strings the text-level theorem speaks about, statements with
            text_guard = true)  vs  the real Symbol.code / Symbol.equation
   K_pyast  extracted CodeGen.program_of_script (script -> Lex -> trees -> program)  vs  the program CPython's own `ast`
            reads from the real generated Model.CODE (harness/evalmodel.py)
+  K_tie    extracted CodeGen.program_of_script_checked: every statement the model gives a meaning to must be READ BACK, as the
+           identical statement, from its own code text (CodeGen.code_agrees: lex_code of code_text vs the script's tokens); a
+           script that passes program_of_script and fails this is reported (the defect classes keyword-fusion and private-name
+           mangling are what this catches generically; both are also mirrored explicitly and known)
   K_code   extracted CodeGenBlock.equations_block (selection of symbols, default_converter, textwrap.indent, join)  vs  the
            `{equations}` tail of the real Model.CODE
   K_eval   in Coq (vm_compute, PrimFloat): CodeGenF.check_ccase recomputes the program FROM THE SCRIPT TEXT, runs
@@ -46,7 +50,7 @@ PROPS_FILE = 'Props/C01.v'
 MODEL_FILES = ['Parser/PyStr.v', 'Parser/Lex.v', 'Parser/Format.v', 'Parser/Symbols.v', 'Parser/Split.v', 'Parser/Merge.v',
                'Parser/ParseEq.v', 'Parser/ParseModel.v', 'Eval/Eval.v', 'Eval/EvalF.v', 'CodeGen/CodeGen.v', 'CodeGen/CodeGenF.v',
                'CodeGen/CodeGenBlock.v', 'Extract/CodeGen/ExtractCodeGen.v']
-K_NAME = ('K_parse + K_text + K_pyast + K_code (extracted Parser / CodeGen models vs fsic.parse_model, Symbol.code/equation, the '
+K_NAME = ('K_parse + K_text + K_pyast + K_tie + K_code (extracted Parser / CodeGen models vs fsic.parse_model, Symbol.code/equation, the '
           'CPython ast of Model.CODE, the equations block of Model.CODE) + K_eval (CodeGenF.check_ccase on PrimFloat vs the real _evaluate(t): store, exception, accesses)')
 RULE = ('fixed corpus (doc examples, defect inputs) + EXHAUSTIVE: every statement Y = a | -a | a op b | f(a) | max/min(a, b) | a if b cmp c else d (thorough: also a op b op c and '
         'a op (b op c)) over 14 trap-spelled atoms x 5 operators in two layouts + sampled beyond: arithmetic programs of 1-4 equations with shared variables, trap names '
@@ -940,6 +944,12 @@ def correspond(cases, obs, tag, tier):
     for i, a in zip(live, ans):
         o = obs[i]
         real = o.get('prog') if o.get('prog') not in (None, 'untranslatable') else None
+        if a == 'T':
+            # K_tie: the model gives every statement of the script a meaning, but some statement is NOT read back from its
+            # own code text (CodeGen.code_agrees): the token-wise rendering changed the statement — a defect of the code
+            # generator (or a gap of the model), whatever the real evaluation does
+            note(i, 'K_tie', 'program_of_script accepts, code_agrees fails', o.get('code'))
+            continue
         if a == 'N' or real is None:
             # evalmodel refuses (fail-closed) what CPython computes on ints rather than floats beyond constant folding
             # (e.g. -max(0, X)): no reading of the real code to compare with
